@@ -3,6 +3,9 @@ CONSTANTS
   Sessions = {"a", "b"}
   Viewers = {}
   MaxOps = 5
+  MaxExpire = 3
+  TornIds = {99}
+  Failures = FALSE
   Variant = "racy"
   External = FALSE
   Sequential = FALSE
@@ -11,5 +14,4 @@ CONSTANTS
   Mode = "mc"
 VIEW View
 CHECK_DEADLOCK FALSE
-INVARIANTS DiskIsLastSuccess
-PROPERTIES NoLostUpdate Chain VersionsGrow OnlyLiveEditorsMutate FileChangesOnlyInWrites
+PROPERTIES NoLostUpdate
